@@ -133,7 +133,7 @@ META = {
     text=("Fault enumeration. Part A: for generated command sets (five control types, 8/16-bit indices, 1-3 headers) in both modes the harness first answers faithfully (operate() must return Ok; OPERATE must carry sequence+1 and byte-identical objects) and then replays the exchange once per mutation of the echo "
           "(every status code, every value byte, index, dropped/duplicated/swapped object, other prefix width or variation, dropped/swapped/extra header, empty, truncated, IIN2 rejection), in the first reply and for select-before-operate also in the second: operate() must return an error and OPERATE must not be sent after an unfaithful SELECT echo. "
           "Part B: every request kind x every protocol step x {reply lost, reply lost while unrelated user messages / unsolicited / stale responses keep the channel busy, link error, disable, remove association}: exactly one outcome, an error, within one response timeout of virtual time from the failure point (immediately for link error / disable). Part Q: queue-full and no-connection submissions fail at once; queued requests all resolve."),
-    note="Shutdown while a user future is pending is not reachable (the future holds a channel handle); file reader terminal callbacks are not yet driven.",
+    note="Shutdown while a user future is pending is not reachable (the future holds a channel handle). File readers: exactly one terminal callback for every step x failure, `completed` stands when only the trailing CLOSE fails.",
  ),
  "C17": dict(
     engine="vh",
